@@ -214,9 +214,9 @@ def step (st : St) (line : String) : St × List String :=
     match w.vecs (vidx a), w.vecs (vidx b) with
     | some va, some vb =>
       let ea := va.abs.map (·.getD []); let eb := vb.abs.map (·.getD [])
-      let lt := vecLt st.ps ea eb; let gt := vecGt st.ps ea eb
-      let eqs := match vecEq st.ps ea eb with | some e => s!"eq={b2s e} ne={b2s (!e)}" | none => "eq=UB ne=UB"
-      (st, [s!"cmpv {eqs} lt={b2s lt} le={b2s (vecLe st.ps ea eb)} gt={b2s gt} ge={b2s (vecGe st.ps ea eb)}"])
+      let lt := vecLt st.ps va.fs vb.fs ea eb; let gt := vecGt st.ps va.fs vb.fs ea eb
+      let eqs := match vecEq st.ps va.fs vb.fs ea eb with | some e => s!"eq={b2s e} ne={b2s (!e)}" | none => "eq=UB ne=UB"
+      (st, [s!"cmpv {eqs} lt={b2s lt} le={b2s (vecLe st.ps va.fs vb.fs ea eb)} gt={b2s gt} ge={b2s (vecGe st.ps va.fs vb.fs ea eb)}"])
     | _, _ => (st, ["bad-op cmpv"])
   | ["cmpe", a, i, b, j] =>
     match (w.vecs (vidx a)).bind (·.get i.toNat!), (w.vecs (vidx b)).bind (·.get j.toNat!) with
@@ -234,7 +234,7 @@ def step (st : St) (line : String) : St × List String :=
     match w.vecs (vidx a), w.vecs (vidx b), w.vecs (vidx c) with
     | some va, some vb, some vc =>
       let ea := va.abs.map (·.getD []); let eb := vb.abs.map (·.getD []); let ec := vc.abs.map (·.getD [])
-      (st, [s!"transv ab={b2s (vecLt st.ps ea eb)} bc={b2s (vecLt st.ps eb ec)} ac={b2s (vecLt st.ps ea ec)}"])
+      (st, [s!"transv ab={b2s (vecLt st.ps va.fs vb.fs ea eb)} bc={b2s (vecLt st.ps vb.fs vc.fs eb ec)} ac={b2s (vecLt st.ps va.fs vc.fs ea ec)}"])
     | _, _, _ => (st, ["bad-op transv"])
   | ["emp", t, u, f, _kind, items] =>
     match parseTy t, parseTy u, parseForm f with
